@@ -304,6 +304,80 @@ func TestC16Stream(t *testing.T) {
 		}
 	})
 	rec.Exhaustive("stream")
+	// a peer that shuts down its sending side after its last requests (half-close) still reads:
+	// the answers to requests it sent before the FIN go out on the connection they arrived on,
+	// also when the application asked for CloseNotify (whose copy routine sees the FIN first)
+	rec.Suite("answer-after-half-close", 8*rec.N(2, 100), func(c *ev.Case) {
+		notify := c.I%2 == 0
+		viaSM := (c.I/2)%2 == 0
+		slow := (c.I/4)%2 == 0
+		c.Class("answer-after-half-close/close-notify=%v/state-machine=%v/slow-handler=%v", notify, viaSM, slow)
+		leak := runBubbleWD(t, rec, c, 60*time.Second, func() {
+			sig := func(op string) ev.Sig { return ev.Sig{"op": op, "what": "answer after half-close"} }
+			appH := func(dc diam.Conn, m *diam.Message) {
+				if notify {
+					_ = dc.(diam.CloseNotifier).CloseNotify()
+				}
+				if slow {
+					time.Sleep(50 * time.Millisecond)
+				}
+				m.Answer(2001).WriteTo(dc)
+			}
+			var h diam.Handler = diam.HandlerFunc(appH)
+			if viaSM {
+				machine := sm.New(&sm.Settings{OriginHost: "srv.local", OriginRealm: "realm.local", VendorID: 13, ProductName: "verif",
+					HostIPAddresses: []datatype.Address{datatype.Address([]byte{192, 0, 2, 1})}})
+				machine.HandleFunc("ALL", appH)
+				h = machine
+			}
+			srv := &diam.Server{Handler: h, Dict: ctx.Parser}
+			ln := memnet.NewListener()
+			go srv.Serve(ln)
+			defer ln.Close()
+			mc := memnet.NewConn()
+			ln.Offer(mc)
+			var reqs []refcodec.Header
+			var stream []byte
+			if viaSM {
+				stream = append(stream, peer.StdCER(11, 12, 4)...)
+				reqs = append(reqs, refcodec.Header{Version: 1, Flags: 0x80, Code: 257, HopByHop: 11, EndToEnd: 12})
+			}
+			first := peer.Msg(0xC0, 272, 4, 21, 22, peer.Str(peer.SessionID, refcodec.UTF8String, "s;1"))
+			reqs = append(reqs, refcodec.Header{Version: 1, Flags: 0xC0, Code: 272, App: 4, HopByHop: 21, EndToEnd: 22})
+			mc.Feed(append(stream, first...))
+			synctest.Wait()
+			time.Sleep(time.Second)
+			synctest.Wait()
+			// the last burst and the FIN
+			var burst []byte
+			for i := uint32(0); i < 3; i++ {
+				burst = append(burst, peer.Msg(0xC0, 272, 4, 31+i, 41+i, peer.Str(peer.SessionID, refcodec.UTF8String, "s;1"))...)
+				reqs = append(reqs, refcodec.Header{Version: 1, Flags: 0xC0, Code: 272, App: 4, HopByHop: 31 + i, EndToEnd: 41 + i})
+			}
+			if viaSM {
+				burst = append(burst, peer.DWR(51, 52)...)
+				reqs = append(reqs, refcodec.Header{Version: 1, Flags: 0x80, Code: 280, HopByHop: 51, EndToEnd: 52})
+			}
+			mc.Feed(burst)
+			mc.FeedEOF()
+			time.Sleep(2 * time.Second)
+			synctest.Wait()
+			msgs, rest := peer.SplitMessages(mc.Written())
+			if len(rest) != 0 || len(msgs) != len(reqs) {
+				c.Fail(sig("answer-count"), nil, nil, "the peer sent %d requests and then shut down its sending side (CloseNotify requested: %v, state machine: %v, handlers take 50 ms: %v): %d answers reached the transport (%d stray bytes; %d writes after the library closed it)", len(reqs), notify, viaSM, slow, len(msgs), len(rest), mc.WritesAfterClose())
+				return
+			}
+			for i, m := range msgs {
+				if !checkAnswer(c, "answer after half-close", reqs[i], m, 2001, true) {
+					return
+				}
+			}
+			c.Event("stream_answers_checked", len(msgs))
+		})
+		if leak != "" && !c.Failed() {
+			c.Fail(ev.Sig{"op": "bubble-leak"}, nil, nil, "goroutines left blocked: %s", leak)
+		}
+	})
 	// watchdog answers of one state machine for several peers at the same moment: every DWA mirrors
 	// the request it answers (identifiers, P bit), not another connection's
 	rec.Suite("concurrent-dwas", rec.N(40, 20000), func(c *ev.Case) {
